@@ -21,6 +21,18 @@ const TOMLTagName = "toml"
 type Decoder struct {
 }
 
+// unmarshal calls go-toml, which panics on some struct tags (a name that is
+// blank after trimming is indexed without a length check); such a panic is
+// returned as an error.
+func unmarshal(data []byte, v interface{}) (err error) {
+	defer func() {
+		if r := recover(); r != nil {
+			err = fmt.Errorf("go-toml panicked (unusable %s or %s struct tag?): %v", TOMLTagName, common.DialsTagName, r)
+		}
+	}()
+	return tomlparser.Unmarshal(data, v)
+}
+
 // Decode will read from `r` and parse it as TOML depositing the relevant values
 // in `t`.
 func (d *Decoder) Decode(r io.Reader, t *dials.Type) (reflect.Value, error) {
@@ -41,7 +53,7 @@ func (d *Decoder) Decode(r io.Reader, t *dials.Type) (reflect.Value, error) {
 
 	// Get a pointer to our value, so we can pass that.
 	instance := val.Addr().Interface()
-	err = tomlparser.Unmarshal(tomlBytes, instance)
+	err = unmarshal(tomlBytes, instance)
 	if err != nil {
 		return reflect.Value{}, err
 	}
